@@ -35,10 +35,11 @@ LOG10_2 = math.log10(2)
 
 
 def parser():
+    """a parser WITH a parse cache: the same source text is evaluated again and again with operands of other types"""
     global _parser
-    if _parser is None:
+    if _parser is None or len(_parser.parse_cache) > 2000:
         from smartquery import SqParser
-        _parser = SqParser()
+        _parser = SqParser(parse_cache={})
     return _parser
 
 
@@ -162,6 +163,15 @@ def run_chain(case):
                 before = args[0]
                 if not (type(before) is type(r) and before == r):
                     bad(f'repeat:{op}({types})', f'a {tname(r)} came out of a multiplication: {repr(r)[:80]}')
+        elif kind == 'mapmul':
+            # one multiplication node evaluated once per element: each product is a 28-digit decimal, or the call fails
+            if exc is None and isinstance(r, list):
+                for x in r:
+                    if not (isinstance(x, D) and digits_result(x) <= 28):
+                        bad(f'not-decimal28:{op}(element of a mapped list)', f'an element of the result is {repr(x)[:80]} ({tname(x)}), not a 28-digit decimal')
+                        break
+            elif exc is not None and all(is_num(x) for x in flat) and not isinstance(exc, (ArithmeticError, ParserError)):
+                bad(f'mul-error:{op}:{type(exc).__name__}', f'raised {type(exc).__name__}: {exc}')
         elif kind == 'float':
             if exc is None and not is_num(r):
                 bad(f'float-not-number({types})', f'float() returned {r!r}')
@@ -243,8 +253,8 @@ def cases(draw):
             args = {'a {op} b': ['a', 'b'], 'b {op} a': ['b', 'a'], 'a {op} a': ['a', 'a'], 'a = a {op} b': ['a', 'b'], 'c[0] {op} a': ['c0', 'a']}[form]
             steps.append({'src': src, 'kind': kind, 'op': op, 'args': args, 'out': 'a' if form.startswith('a =') else 'ret'})
         elif route in ('short', 'setop', 'dictop'):
-            op = pick(['+=', '-=', '*=', '/=', '*='])
-            kind = 'mul' if op == '*=' else 'num'
+            op = pick(['+=', '-=', '*=', '/=', '*=', '**='])
+            kind = 'mul' if op == '*=' else ('pow' if op == '**=' else 'num')
             tgt, sel = {'short': ('a', 'a'), 'setop': ('c[0]', 'c0'), 'dictop': ('d["k"]', 'dk')}[route]
             rhs = pick(['b', 'a', tgt]) if route != 'short' else pick(['b', 'a'])
             rsel = {'b': 'b', 'a': 'a', 'c[0]': 'c0', 'd["k"]': 'dk'}[rhs]
@@ -277,6 +287,8 @@ def cases(draw):
                 ('a = 2 ** 0.5 * a', 'mul', '*', ['a'], 'a'), ('b = a - b', 'num', '-', ['a', 'b'], 'b'),
                 ('c[0] += a', 'num', '+=', ['c0', 'a'], 'c0'), ('a = abs(a) + 1', 'num', '+', ['a'], 'a'),
                 ('a = a / 3', 'num', '/', ['a'], 'a'), ('a = -a', 'num', 'neg', ['a'], 'a'),
+                ('map(l, v => v * v)', 'mapmul', '*', ['l'], 'ret'), ('map(l, v => v * b)', 'mapmul', '*', ['l', 'b'], 'ret'),
+                ('map(l, v => v ** 2)', 'mapmul', '**', ['l'], 'ret'), ('map([a, b, a], v => v * a)', 'mapmul', '*', ['a', 'b'], 'ret'),
             ])
             steps.append({'src': src, 'kind': kind, 'op': op, 'args': args, 'out': out})
         else:
